@@ -3,6 +3,7 @@ package c18
 
 import (
 	"fmt"
+	"math/bits"
 	"os"
 	"sort"
 	"strings"
@@ -41,6 +42,9 @@ type spec struct {
 	CaseSeed    uint64
 	Amount      uint64 // 0: chosen by pick
 	IncludeFees bool
+	// LateRotation: the wallet is loaded while the last-but-one keyset is active; the mint rotates to the last
+	// keyset afterwards, so the send itself is what discovers the rotation (the last keyset holds nothing)
+	LateRotation bool
 }
 
 func propSend(t *rapid.T) {
@@ -50,11 +54,15 @@ func propSend(t *rapid.T) {
 		sp.Fees[i] = rapid.SampledFrom(feeChoices).Draw(t, "fee_ppk")
 	}
 	sp.CaseSeed = rapid.Uint64().Draw(t, "case_seed")
+	sp.LateRotation = nks >= 2 && rapid.IntRange(0, 3).Draw(t, "late_rotation") == 0
 	total := 0
 	var balance, inactive uint64
 	for k := 0; k < nks; k++ {
 		n := rapid.IntRange(0, 12).Draw(t, "n_proofs")
-		if k == nks-1 && total == 0 && n == 0 {
+		if sp.LateRotation && k == nks-1 {
+			break
+		}
+		if (k == nks-1 || (sp.LateRotation && k == nks-2)) && total == 0 && n == 0 {
 			n = 1
 		}
 		for i := 0; i < n; i++ {
@@ -97,7 +105,14 @@ func sendCase(t world.T, sp spec) {
 	var contents cashu.Proofs
 	feeOf := map[string]uint64{}
 	var inactive uint64
+	var sender *wenv.WalletH
 	for k := 0; k < nks; k++ {
+		if sp.LateRotation && k == nks-1 {
+			var err error
+			if sender, err = e.NewWallet("sender", mintURL); err != nil {
+				t.Fatalf("LoadWallet: %v", err)
+			}
+		}
 		if k > 0 {
 			if _, err := mw.Mint.RotateKeyset(fees[k]); err != nil {
 				t.Fatalf("rotate: %v", err)
@@ -129,9 +144,11 @@ func sendCase(t world.T, sp spec) {
 			contents = append(contents, mw.M.Proofs[o.Secret].P)
 		}
 	}
-	sender, err := e.NewWallet("sender", mintURL)
-	if err != nil {
-		t.Fatalf("LoadWallet: %v", err)
+	if sender == nil {
+		var err error
+		if sender, err = e.NewWallet("sender", mintURL); err != nil {
+			t.Fatalf("LoadWallet: %v", err)
+		}
 	}
 	if err := sender.Inner().SaveProofs(contents); err != nil {
 		t.Fatalf("SaveProofs: %v", err)
@@ -177,6 +194,9 @@ func sendCase(t world.T, sp spec) {
 		maxFee = max(maxFee, uint64(f))
 	}
 	cls := fmt.Sprintf("fees=%v|swap=%v|max_ppk=%d|keysets=%d", includeFees, swapped, maxFee, nks)
+	if sp.LateRotation {
+		rec.Class(fmt.Sprintf("send_discovers_rotation|fees=%v|swap=%v", includeFees, swapped))
+	}
 	rec.Class("send_" + cls)
 	if inactive > 0 && amount <= inactive && amount+ref.Fee(allPpk) > inactive {
 		// inactive proofs cover the amount but not the amount plus fees
@@ -211,12 +231,26 @@ func sendCase(t world.T, sp spec) {
 	if includeFees {
 		want += fee
 	}
+	// root cause of the one recorded finding (see known_findings.jsonl): swapToSend adds the fee for split(amount)+1
+	// proofs, then appends split(fee) - several proofs when the fee is not a power of two - so the fee for the
+	// proofs really sent is higher by exactly `shortBy`. Any other shortfall is a different defect.
+	cause := ""
+	if swapped && includeFees {
+		ns := uint64(bits.OnesCount64(amount))
+		est := (((ns + 1) * activeFee) + 999) / 1000
+		actual := ((ns+uint64(bits.OnesCount64(est)))*activeFee + 999) / 1000
+		if actual > est && sent.Amount()+(actual-est) == want {
+			cause = "|cause=fee_of_split_fee_not_covered"
+		} else {
+			cause = "|cause=other"
+		}
+	}
 	if got := sent.Amount(); got != want {
 		kind := "sent_too_little"
 		if got > want {
 			kind = "sent_too_much"
 		}
-		violate(t, fmt.Sprintf("%s|include_fees=%v|swapped=%v", kind, includeFees, swapped), "sent %d proofs worth %d, expected exactly %d (amount %d + mint fee for these proofs %d); %s", len(sent), got, want, amount, map[bool]uint64{true: fee, false: 0}[includeFees], desc)
+		violate(t, fmt.Sprintf("%s|include_fees=%v|swapped=%v%s", kind, includeFees, swapped, cause), "sent %d proofs worth %d, expected exactly %d (amount %d + mint fee for these proofs %d); %s", len(sent), got, want, amount, map[bool]uint64{true: fee, false: 0}[includeFees], desc)
 	}
 	// unspent at the mint, removed from spendable
 	var ys []string
@@ -263,7 +297,7 @@ func sendCase(t world.T, sp spec) {
 		violate(t, "recipient_net_differs_from_mint_fee", "recipient got %d (balance %d), sent value %d - mint fee %d = %d; %s", got, recv.W.GetBalance(), sent.Amount(), fee, net, desc)
 	}
 	if includeFees && got != amount {
-		violate(t, fmt.Sprintf("recipient_nets_wrong_amount|swapped=%v", swapped), "recipient nets %d, requested %d; %s", got, amount, desc)
+		violate(t, fmt.Sprintf("recipient_nets_wrong_amount|swapped=%v%s", swapped, cause), "recipient nets %d, requested %d; %s", got, amount, desc)
 	}
 	rec.Sample("send_"+cls, map[string]any{"case": desc, "sent": len(sent), "sent_value": sent.Amount(), "mint_fee": fee, "recipient_got": got})
 }
